@@ -553,6 +553,14 @@ func GenCase(tape *sim.Tape, crashBias bool) *Case {
 		f := one("real", minifiableExts, true)
 		t.Entries = append(t.Entries, Entry{Path: "src/ln." + extOf(f), Kind: KSymlink, Target: "../" + f})
 		t.Entries = append(t.Entries, Entry{Path: "src/lndir", Kind: KSymlink, Target: "../real"})
+		switch tape.Draw(4) {
+		case 0:
+			// a second link to the same directory (two sites sharing one theme), ...
+			t.Entries = append(t.Entries, Entry{Path: "src/lndir2", Kind: KSymlink, Target: "../real"})
+		case 1:
+			// ... or a link to the first link: every one of them is mirrored
+			t.Entries = append(t.Entries, Entry{Path: "src/zz-chain", Kind: KSymlink, Target: "lndir"})
+		}
 		iv.Recursive = true
 		iv.Inputs, iv.Output = []string{"src/"}, "out/"
 	}
